@@ -669,7 +669,7 @@ impl<'a> UserModel<'a> {
         if let Ok(worksheet) = self.model.workbook.worksheet_mut(sheet) {
             if let Some(view) = worksheet.views.get_mut(&self.model.view_id) {
                 view.top_row = last_row;
-                view.row = view.top_row + row_delta;
+                view.row = (view.top_row + row_delta).clamp(1, LAST_ROW);
                 view.range = [view.row, view.column, view.row, view.column];
             }
         }
@@ -704,7 +704,7 @@ impl<'a> UserModel<'a> {
         if let Ok(worksheet) = self.model.workbook.worksheet_mut(sheet) {
             if let Some(view) = worksheet.views.get_mut(&self.model.view_id) {
                 view.top_row = first_row;
-                view.row = view.top_row + row_delta;
+                view.row = (view.top_row + row_delta).clamp(1, LAST_ROW);
                 view.range = [view.row, view.column, view.row, view.column];
             }
         }
